@@ -367,7 +367,8 @@ pub struct C19;
 
 impl C19 {
     pub fn on(&mut self, rec: &CallRec, ch: &Chain, codec: CodecKind, acc: &mut Acc) -> Verdict {
-        let own = rec.pre.id.addr;
+        // (a user-driven change_identity may move to another address: its gossip goes out under the new one)
+        let own = crate::mon::chain::start_identity(rec).addr;
         // what a peer named in the datagram being handled (relay targets)
         let named: Option<Id> = match &rec.op {
             Op::Data(d) => match wire::decode_header(codec, d) {
